@@ -15,6 +15,10 @@ def make_wl(rng, k):
     if k is not None and k % 4 == 2:
         spec["pre_ids"] = 1
     spec["novel_gene_overlap"] = rng.choice([1, 2])
+    if k is not None and k % 4 == 0:
+        # a reference isoform seen in two processing regions of one read island; a reference transcript with a 1-bp exon
+        spec["long_locus"] = 2
+        spec["tiny_exon"] = 1
     if k is not None:
         spec["gene_naming"] = k % 3
         spec["drop_chr_annotation"] = 1 if k % 3 == 1 else 0
